@@ -89,12 +89,34 @@ def journals (user : Table) (f : List App → List (List Arg)) : Json :=
       | .func _ apps => some (jArr ([jNat (ci.2 + libTable.length)] ++ nameJ p.1 ++ [callsJ (f apps)]))
       | _ => none)
 
-/-- case: {"k": "generic"|"decorated", "table": [user classes…] (ids start after the library classes), "cls": id,
-    "orig": null | [type args], "enums": [[type id, {"members": [...], "clsattrs": [[k, v]…]}]…]} -/
+def origOf (j : Json) : Option (List TArg) := if jIsNull j then none else some ((jL j).map targOf)
+
+/-- the model's `issubclass(c, GenericMixin)` (reachability through `__bases__`) says the same as membership in the linearisation
+    it computes (which is compared with `__mro__`), for every class of the table -/
+def issubConsistent (t : Table) (d : Nat) : Bool :=
+  (List.range t.length).all fun c => derives t 1 d c == (lin t d c).contains 1
+
+/-- a history: instances `insts` = [[cls, orig]…] are created first, then queried in the order `qs` (indices, repeats allowed) -/
+def handleHistory (t : Table) (d : Nat) (c : Json) : Json :=
+  let insts : List (Nat × Option (List TArg)) := (jL (jF c "insts")).map fun j => (jN (jAt j 0), origOf (jAt j 1))
+  let qs : List (Nat × Option (List TArg)) := (jL (jF c "qs")).filterMap fun j => insts[jN j]?
+  let answers := runQueries t d qs
+  mkObj [("hist", jArr ((qs.zip answers).map fun qa =>
+            let e := expectedOutcome t d qa.1.1 qa.1.2
+            mkObj [("model", resJ pairsJ qa.2), ("spec", expectJ e), ("kind", kindJ (kindOf t d qa.1.1)),
+                   ("type_var", resJ targJ (typeVar qa.2)),
+                   ("spec_type_var", match expectedTypeVar e with | some x => targJ x | none => Json.null)])),
+         ("mros", jArr (insts.map fun i => jArr ((lin t d i.1).map jNat))),
+         ("issub_ok", jBool (issubConsistent t d))]
+
+/-- case: {"k": "generic"|"decorated"|"history", "table": [user classes…] (ids start after the library classes; a class may carry
+    "cgi" / "eq" flags that only the Python side reads), "cls": id, "orig": null | [type args],
+    "enums": [[type id, {"members": [...], "clsattrs": [[k, v]…]}]…]; history: "insts": [[cls, orig]…], "qs": [index…]} -/
 def handle (c : Json) : Json :=
   let user : Table := (jL (jF c "table")).map clsOf
   let t : Table := libTable ++ user
   let d := t.length + 1
+  if jS (jF c "k") == "history" then handleHistory t d c else
   let cls := jN (jF c "cls")
   let orig : Option (List TArg) := if jIsNull (jF c "orig") then none else some ((jL (jF c "orig")).map targOf)
   let r := getTypes t d cls orig
@@ -102,7 +124,7 @@ def handle (c : Json) : Json :=
   let common := [("model", resJ pairsJ r), ("spec", expectJ e), ("kind", kindJ (kindOf t d cls)),
                  ("type_var", resJ targJ (typeVar r)),
                  ("spec_type_var", match expectedTypeVar e with | some x => targJ x | none => Json.null),
-                 ("mro", jArr ((lin t d cls).map jNat))]
+                 ("mro", jArr ((lin t d cls).map jNat)), ("issub_ok", jBool (issubConsistent t d))]
   if jS (jF c "k") == "decorated" then
     let enumOf := enumOfJ (jF c "enums")
     let mro := lin t d cls
